@@ -167,3 +167,24 @@ Proof. vm_compute. reflexivity. Qed.
 Lemma arc_transform_uniform_scale_ok :
   arc_tf_agrees (eig_sym false false) (bmat (bz 3) (bz 0) (bz 0) (bz 3)) P_quarter = true.
 Proof. vm_compute. reflexivity. Qed.
+
+(* ------------------------------------------------------------------ *)
+(* 3. the REPAIRED Arc branch (arc_transform_fixed, no oracle) on the same
+      witnesses: end points mapped and the points at t = 1/4, 1/2 right to 2^-50
+      (W2's start sits at an axis extreme of the image ellipse, where theta = acos(1 - eps)
+      keeps only half of the 120 bits) *)
+(* ------------------------------------------------------------------ *)
+Definition arc_tf_fixed_agrees (M : Mat3 bf) (P : ArcP bf) : bool :=
+  let Q := arc_transform_fixed NB TB M P in
+  let d t := bdist1 (seg_point NB TB Q t) (tf_point NB M (arc_point NB TB P t)) in
+  bf_leb (d (bz 0)) (bf_of 1 (-50)) && bf_leb (d (bz 1)) (bf_of 1 (-50))
+  && bf_leb (d (bq 1 2)) (bf_of 1 (-50)) && bf_leb (d (bq 1 4)) (bf_of 1 (-50)).
+Lemma arc_transform_fixed_on_witnesses :
+  arc_tf_fixed_agrees M_w1 P_quarter = true /\ arc_tf_fixed_agrees M_w2 P_quarter = true
+  /\ arc_tf_fixed_agrees M_w3 P_rot45 = true.
+Proof. repeat split; vm_compute; reflexivity. Qed.
+(* a circle under a rotation (repeated eigenvalue: atan2(0,0) = 0) and a reflection *)
+Lemma arc_transform_fixed_degenerate :
+  arc_tf_fixed_agrees (bmat (bq 3 5) (bq (-4) 5) (bq 4 5) (bq 3 5)) P_quarter = true
+  /\ arc_tf_fixed_agrees (bmat (bz 1) (bz 0) (bz 0) (bz (-1))) P_rot45 = true.
+Proof. split; vm_compute; reflexivity. Qed.
